@@ -110,3 +110,14 @@ if os.environ.get("VF_WORKER") == "1":  # pragma: no cover - exercised in worker
     # pathlib interns every path segment (sys.intern is C and rejects proxies); interning
     # is semantically the identity on str.
     _register_patch(sys.intern, lambda s: s)
+
+
+def untraced(fn):
+    """Run fn() with CrossHair's tracer suspended (plain CPython); identity outside workers."""
+    if os.environ.get("VF_WORKER") == "1":
+        from crosshair.tracers import NoTracing, is_tracing
+
+        if is_tracing():
+            with NoTracing():
+                return fn()
+    return fn()
